@@ -476,6 +476,11 @@ class FuncEmitter:
     def ptr(s, v):
         return s.G.val(I8P, v, s.env, want_ptr=True)
 
+    def ev(s, kind):
+        """memory / synchronisation event counter (native builds only): lets a schedule be expressed in units that an
+        instrumented native build of the real code can count too (engine/irinstr.py, engine/vp_rt.cpp)"""
+        s.S(f"VP_EV({kind});")
+
     # ---- instruction selection
     def ins(s, b, i):
         G, M, env = s.G, s.M, s.env
@@ -558,6 +563,8 @@ class FuncEmitter:
             ct = 'char*' if (i.dst in s.pl or isinstance(rt, PtrT)) else G.ctype(i.ty)
             if not i.attrs.get('priv'):
                 s.visible('load', f"{order or 'na'} {i.raw.strip()[:70]}")
+            s.ev(0)
+            if not i.attrs.get('priv'):
                 if G.hb and order is None: s.S(f"VP_HB_LOAD({P}, {M.sizeof(i.ty)}, VP_O_NA);")
                 if G.hb and order is not None:
                     prev = f"vp_hb_prev_p({P})" if ct == 'char*' else f"({ct})vp_hb_prev_i({P})"
@@ -574,6 +581,8 @@ class FuncEmitter:
             V = G.val(i.ty, v, env, want_ptr=isp)
             if not i.attrs.get('priv'):
                 s.visible('store', f"{order or 'na'} {i.raw.strip()[:70]}")
+            s.ev(1)
+            if not i.attrs.get('priv'):
                 if G.hb and order is None: s.S(f"VP_HB_STORE({P}, {M.sizeof(i.ty)}, VP_O_NA);")
                 if G.hb and order is not None:
                     if ct == 'char*': s.S(f"vp_hb_astore_p({P}, *(char**)({P}), VP_O_{order.upper()});")
@@ -589,6 +598,8 @@ class FuncEmitter:
             V = G.val(i.ty, v, env, want_ptr=isp)
             if not i.attrs.get('priv'):
                 s.visible('rmw', f"{rop} {order}")
+            s.ev(1)
+            if not i.attrs.get('priv'):
                 if G.hb: s.S(f"VP_HB_RMW({P}, {M.sizeof(i.ty)}, VP_O_{order.upper()});")
             old = D if D else f"*({ct}*)({P})"
             pre = f"{D} = *({ct}*)({P}); " if D else ""
@@ -606,10 +617,13 @@ class FuncEmitter:
             Ev = G.val(ty, e_, env, want_ptr=cpl); Nv = G.val(ty, n_, env, want_ptr=cpl)
             if not i.attrs.get('priv'):
                 s.visible('cas', f"{o1} {o2}")
+            s.ev(1)
+            if not i.attrs.get('priv'):
                 if G.hb: s.S(f"VP_HB_CAS({P}, {M.sizeof(ty)}, VP_O_{o1.upper()}, VP_O_{o2.upper()}, (*({ct}*)({P}) == ({Ev})));")
             s.S(f"{D}.f0 = *({ct}*)({P}); {D}.f1 = ({D}.f0 == ({Ev})); if ({D}.f1) {{ *({ct}*)({P}) = {Nv}; vp_epoch++; }}")
         elif o == 'fence':
             s.visible('fence', a[0])
+            s.ev(2)
             if G.hb: s.S(f"VP_HB_FENCE(VP_O_{a[0].upper()});")
         elif o == 'extractvalue':
             ty, v, idxs = a
@@ -756,6 +770,7 @@ class FuncEmitter:
                 s.visible('yield', '', cond="vp_yepoch[vp_cur] != vp_epoch", bk='VP_B_YIELD')
             else:
                 s.visible('yield', '')
+            s.ev(3)
             if D: s.S(f"{D} = 0;")
             return
         if kind in ('cvwait', 'cvclockwait', 'cvtimedwait'):
@@ -764,8 +779,10 @@ class FuncEmitter:
             else: mx = A(1)
             timed = 0 if kind == 'cvwait' else 1
             s.visible('cv_wait_begin', '')
+            s.ev(4)
             s.S(f"vp_cv_wait_begin({cv}, {mx}); vp_epoch++;")
             s.visible('cv_wait_wake', '', cond=f"vp_cv_can_wake({cv}, {mx}, {timed})", bk='VP_B_CV', a=cv, b=mx)
+            s.ev(4)
             if kind == 'cvwait': s.S(f"vp_cv_wait_end({cv}, {mx}, 0, (char*)0);")
             else:
                 tsarg = A(3) if kind == 'cvclockwait' else A(2)
@@ -775,17 +792,20 @@ class FuncEmitter:
         nfix = m.get('vararg')
         av = ', '.join(A(k) for k in range(len(args) if nfix is None else nfix))
         if kind == 'pure' or kind == 'mem':
-            if kind == 'mem': s.visible('mem', cn)
+            if kind == 'mem': s.visible('mem', cn); s.ev(4)
             s.S(f"{asg}{cname}({av});")
         elif kind == 'vis':
             s.visible('sync', cn)
+            s.ev(4)
             s.S(f"{asg}{cname}({av});" + (" vp_epoch++;" if m.get('wr') else ""))
         elif kind == 'block':
             s.visible('sync', cn, cond=f"{m['en']}({A(0)})", bk=m['bk'], a=A(0))
+            s.ev(4)
             s.S(f"{asg}{cname}({av});")
         elif kind == 'tblock':
             # timed acquisition: enabled when the lock is available, or by the always-enabled time-out transition
             s.visible('sync', cn, cond=f"({m['en']}({A(0)}) || vp_timeout_fires())", bk='VP_B_TIMED', a=A(0))
+            s.ev(4)
             s.S(f"{asg}{cname}({av});")
         else:
             raise Unsupported("model kind " + kind)
@@ -797,6 +817,7 @@ class FuncEmitter:
             if not i.attrs.get('priv'):
                 s.visible('memset', '')
                 if G.hb: s.S(f"VP_HB_STORE({A(0)}, {A(2)}, VP_O_NA);")
+            s.ev(1)
             if args[2][1][0] == 'int':
                 s.S(f"memset({A(0)}, {A(1)}, {A(2)});" + ("" if i.attrs.get('priv') else " vp_epoch++;"))
             else:
@@ -805,6 +826,7 @@ class FuncEmitter:
             if not i.attrs.get('priv'):
                 s.visible('memcpy', '')
                 if G.hb: s.S(f"VP_HB_LOAD({A(1)}, {A(2)}, VP_O_NA); VP_HB_STORE({A(0)}, {A(2)}, VP_O_NA);")
+            s.ev(1)
             if args[2][1][0] == 'int':
                 s.S(f"memmove({A(0)}, {A(1)}, {A(2)});" + ("" if i.attrs.get('priv') else " vp_epoch++;"))
             else:
